@@ -24,6 +24,7 @@ PROPERTIES = {
     'C12': ['c12'],
     'C15': ['c15'],
     'C17': ['c17'],
+    'C18': ['c18'],
     'C20': ['c20'],
 }
 
